@@ -64,14 +64,21 @@ Definition ns (secs : Z) : Z := (secs * second_ns)%Z.
 
 (* the scripts of one Connect call with their absolute dial times; when the scripts run
    out the dialer fails *)
-Fixpoint mk_scripts (now : Z) (legs : list dleg) : list (conn_script * bool) :=
+(* end modes whose last line's answer is not observed: x (peer hangs up with it), k / q (the
+   application calls Close() / Quit() while the line is still queued: execLoop's drain branch
+   still handles it, on a connection whose transport has not changed - has_tls is a property
+   of the connection, not of the connected flag) *)
+Definition unobserved_end (e : N) : N :=
+  if N.eqb e 120 || N.eqb e 107 || N.eqb e 113 then e else 0.
+
+Fixpoint mk_scripts (now : Z) (legs : list dleg) : list (conn_script * N) :=
   match legs with
-  | [] => [(mkConn false now true [] (EndClosed now), false)]
+  | [] => [(mkConn false now true [] (EndClosed now), 0)]
   | l :: r =>
       let now' := (now + ns (dl_age l))%Z in
       (mkConn (dl_dial l) now' (dl_hs l) (List.map (fun ps => (now', ps)) (rev (dl_evs l)))
               (if N.eqb (dl_end l) 101 || N.eqb (dl_end l) 120 then EndIOError else EndClosed now'),
-       N.eqb (dl_end l) 120)
+       unobserved_end (dl_end l))
       :: mk_scripts now' r
   end.
 
@@ -119,12 +126,12 @@ Definition render_pol (now : Z) (s : strict_transport) : str :=
 Definition render_srv (s : strict_transport) : str := bs ";srv=" ++ show_Z (server_port cfg_port s).
 
 (* with end mode x the answer to the script's last line is not observed *)
-Definition render_events (hung : bool) (nev : nat) (outs : list (list cap_out)) : str :=
-  if hung && Nat.eqb (length outs) nev && negb (Nat.eqb nev 0)
-  then concat (List.map (fun o => 59 :: render_outs10 o) (removelast outs)) ++ [59; 120]
+Definition render_events (mark : N) (nev : nat) (outs : list (list cap_out)) : str :=
+  if negb (N.eqb mark 0) && Nat.eqb (length outs) nev && negb (Nat.eqb nev 0)
+  then concat (List.map (fun o => 59 :: render_outs10 o) (removelast outs)) ++ [59; mark]
   else concat (List.map (fun o => 59 :: render_outs10 o) outs).
 
-Definition render_leg (lc : conn_log * (conn_script * bool)) : str :=
+Definition render_leg (lc : conn_log * (conn_script * N)) : str :=
   let l := fst lc in
   let c := fst (snd lc) in
   bs "[d=" ++ show_Z (l_port l) ++ comma ++
